@@ -241,15 +241,33 @@ func (c *cmp) same1(x, y ssa.Value) bool {
 		if ca == nil || cb == nil || ca.Name() != cb.Name() || len(a.Call.Args) != len(b.Call.Args) {
 			return c.fail(a.Pos(), "call of %v vs %v", ca, cb)
 		}
+		allSame := true
 		for i := range a.Call.Args {
 			if !c.same(a.Call.Args[i], b.Call.Args[i]) {
-				if c.first != nil && !c.first.Pos.IsValid() {
-					c.first.Pos = a.Pos()
-				}
-				return false
+				allSame = false
+				break
 			}
 		}
-		return true
+		if allSame {
+			return true
+		}
+		if (ca.Name() == "Mul64" || ca.Name() == "Add64") && ca.Pkg != nil && ca.Pkg.Pkg.Path() == "math/bits" && len(a.Call.Args) >= 2 {
+			save := c.first
+			c.first = nil
+			ok := c.same(a.Call.Args[0], b.Call.Args[1]) && c.same(a.Call.Args[1], b.Call.Args[0])
+			for i := 2; ok && i < len(a.Call.Args); i++ {
+				ok = c.same(a.Call.Args[i], b.Call.Args[i])
+			}
+			if ok {
+				c.first = nil
+				return true
+			}
+			c.first = save
+		}
+		if c.first != nil && !c.first.Pos.IsValid() {
+			c.first.Pos = a.Pos()
+		}
+		return false
 	case *ssa.IndexAddr:
 		b, ok := y.(*ssa.IndexAddr)
 		if !ok {
@@ -483,3 +501,119 @@ func Pairs(a, b *ssa.Package) [][2]*ssa.Function {
 	}
 	return out
 }
+
+// TailOK checks, on one generated primitive alone, the final conditional subtraction that every Montgomery
+// primitive ends with (Mul, Square, Add, ToMontgomery, FromMontgomery): the four outputs are
+// cmovznz(b, acc_i - m_i - borrow, acc_i) where b is the borrow out of the five-step chain
+// acc_0 - m_0, ..., acc_3 - m_3 - borrow, overflow - 0 - borrow, with m_i the limbs of the modulus. This part has the
+// same shape in every primitive, so it is checked even where the sibling comparison is not possible (ToMontgomery's
+// body legitimately differs between the two moduli). Primitives whose outputs are not conditional moves are not
+// concerned (applies = false).
+func TailOK(fn *ssa.Function, m *Modulus) (applies, ok bool, pos token.Pos, msg string) {
+	if len(fn.Blocks) != 1 {
+		return false, true, token.NoPos, ""
+	}
+	r := resolver(fn)
+	strip := func(v ssa.Value) ssa.Value {
+		for {
+			v = r(v)
+			switch x := v.(type) {
+			case *ssa.ChangeType:
+				v = x.X
+			case *ssa.Convert:
+				v = x.X
+			default:
+				return v
+			}
+		}
+	}
+	sub64 := func(v ssa.Value, idx int) *ssa.Call {
+		e, isE := strip(v).(*ssa.Extract)
+		if !isE || e.Index != idx {
+			return nil
+		}
+		c, isC := e.Tuple.(*ssa.Call)
+		if !isC {
+			return nil
+		}
+		callee := c.Call.StaticCallee()
+		if callee == nil || callee.Pkg == nil || callee.Pkg.Pkg.Path() != "math/bits" || callee.Name() != "Sub64" {
+			return nil
+		}
+		return c
+	}
+	outs := outStores(fn)
+	var cmovs []*ssa.Call
+	for _, s := range outs {
+		c, isC := r(s.Val).(*ssa.Call)
+		if !isC {
+			continue
+		}
+		callee := c.Call.StaticCallee()
+		if callee == nil || callee.Name() != "cmovznzU64" || len(c.Call.Args) != 4 {
+			continue
+		}
+		cmovs = append(cmovs, c)
+	}
+	if len(cmovs) == 0 {
+		return false, true, token.NoPos, ""
+	}
+	if _, isParam := strip(cmovs[0].Call.Args[1]).(*ssa.Parameter); isParam {
+		return false, true, token.NoPos, "" // Selectznz: the selector is an argument
+	}
+	if len(cmovs) != 4 || len(outs) != 4 {
+		return true, false, fn.Pos(), fmt.Sprintf("%d of %d outputs are conditional moves; expected the four limbs of the conditionally subtracted result", len(cmovs), len(outs))
+	}
+	sel := strip(cmovs[0].Call.Args[1])
+	for _, c := range cmovs[1:] {
+		if strip(c.Call.Args[1]) != sel {
+			return true, false, c.Pos(), "the four conditional moves do not share one selector"
+		}
+	}
+	s5 := sub64(sel, 1)
+	if s5 == nil {
+		return true, false, cmovs[0].Pos(), "the selector of the final conditional move is not the borrow out of the subtraction chain (it must be the borrow of overflow - 0 - borrow, not the overflow word itself)"
+	}
+	if k, isK := constU64(strip(s5.Call.Args[1])); !isK || k != 0 {
+		return true, false, s5.Pos(), "the last step of the subtraction chain does not subtract 0 from the overflow word"
+	}
+	bin := s5.Call.Args[2]
+	for i := 3; i >= 0; i-- {
+		si := sub64(bin, 1)
+		if si == nil {
+			return true, false, s5.Pos(), fmt.Sprintf("the borrow into step %d of the final subtraction is not the borrow out of step %d", i+1, i)
+		}
+		k, isK := constU64(strip(si.Call.Args[1]))
+		if !isK || k != m.limbs[i] {
+			return true, false, si.Pos(), fmt.Sprintf("step %d of the final subtraction does not subtract limb %d of the modulus %s", i, i, m.Name)
+		}
+		// cmov i selects between this step's difference and its minuend
+		d := sub64(cmovs[i].Call.Args[2], 0)
+		if d != si {
+			return true, false, cmovs[i].Pos(), fmt.Sprintf("output %d does not select the difference of step %d", i, i)
+		}
+		if strip(cmovs[i].Call.Args[3]) != strip(si.Call.Args[0]) {
+			return true, false, cmovs[i].Pos(), fmt.Sprintf("output %d does not fall back to the unreduced limb %d", i, i)
+		}
+		bin = si.Call.Args[2]
+	}
+	if k, isK := constU64(strip(bin)); !isK || k != 0 {
+		return true, false, s5.Pos(), "the final subtraction chain does not start with borrow 0"
+	}
+	// outputs in limb order
+	for i, s := range outs {
+		ia, isI := s.Addr.(*ssa.IndexAddr)
+		if !isI {
+			return true, false, s.Pos(), "output store is not an indexed store"
+		}
+		if k, isK := constU64(ia.Index); !isK || int(k) != i {
+			return true, false, s.Pos(), fmt.Sprintf("output store %d does not write limb %d", i, i)
+		}
+		if c, _ := r(s.Val).(*ssa.Call); c != cmovs[i] {
+			return true, false, s.Pos(), "output stores and conditional moves are out of order"
+		}
+	}
+	return true, true, token.NoPos, ""
+}
+
+
